@@ -224,6 +224,19 @@ CLAIMED["C16"] = {
     "design_ref": "DESIGN.md §5 C16, §4.8",
 }
 
+CLAIMED["C15"] = {
+    "text": "Decides the emission-order clause only: each expression generator (compile_depth for the 26 binary operators, compound assignment to "
+            "index / field targets, indexing, field access, `(x) or y`, calls; the list- and map-literal generators) is evaluated abstractly over its MIR with "
+            "opaque sub-expressions, which yields the emitted instruction sequence as a word over code(child) and instruction names (e.g. `<lhs> store_fast "
+            "<rhs> load_fast fast_rev2 bin_op`). On that word: code(left) precedes code(right), each occurs exactly once, `&&`/`||` have a store_skip and "
+            "`or` a jmp_not_nil between their operands; literal elements and map pairs are laid down in list order (iterator scripted with two elements); "
+            "call arguments are compiled by arguments.iter() -> flat_map(compile) -> collect with no reversal. Two known findings: compound assignment "
+            "to an index / field target evaluates the right-hand side first. Not decided: skip counts (jump arithmetic), non-interference of later code "
+            "with earlier values, argument order as seen by the callee.",
+    "technique": "static analysis: abstract interpretation of the code generators' MIR to symbolic instruction sequences, order / multiplicity rules on the sequences",
+    "design_ref": "DESIGN.md §5 C15, §9.1",
+}
+
 NOT_APPLICABLE = {
     "C01": "observable is program output; mechanism is relative jump offsets computed from Vec::len() arithmetic of recursively compiled blocks - deciding it needs symbolic execution of the generators (a different family); see DESIGN.md §5 C01",
     "C09": "a property of the compiler's *output* for all programs (jump targets, frame balance, operand-stack shape): needs symbolic block lengths or a verifier over emitted bytecode (translation validation), not an analysis of /repo's source; DESIGN.md §5 C09",
